@@ -68,9 +68,11 @@ type spec struct {
 	algo   string // "" only for mSigned
 	pay    []byte
 	sizes  []int  // chunk-size sequence handed to the encoder (cycled)
-	seqCls string // class of the chunk-size sequence
+	seqCls string // class of the chunk-size sequence ("upper-hex...": sizes are written with upper-case hex digits)
 	payCls string
 }
+
+func (s *spec) upperHex() bool { return strings.HasPrefix(s.seqCls, "upper-hex") }
 
 func (s *spec) trailerName() string {
 	if s.mode == mSigned || s.algo == "" {
@@ -80,7 +82,7 @@ func (s *spec) trailerName() string {
 }
 
 func (s *spec) stream() *s3c.Stream {
-	return &s3c.Stream{Mode: wireMode(s.mode), ChunkSizes: s.sizes, TrailerName: s.trailerName()}
+	return &s3c.Stream{Mode: wireMode(s.mode), ChunkSizes: s.sizes, TrailerName: s.trailerName(), UpperHex: s.upperHex()}
 }
 
 // chunkLens replicates the documented splitting rule of s3c.Stream (sizes cycled, last chunk = remainder).
@@ -145,7 +147,11 @@ func buildLayout(sp *spec, enc []byte) (*layout, error) {
 	lens := sp.chunkLens()
 	hdr := func(i, n int, pfx string) error {
 		l.hdrStart = append(l.hdrStart, pos)
-		if err := expect(pfx+"size", fmt.Sprintf("%x", n), i); err != nil {
+		szf := "%x"
+		if sp.upperHex() {
+			szf = "%X"
+		}
+		if err := expect(pfx+"size", fmt.Sprintf(szf, n), i); err != nil {
 			return err
 		}
 		if signed {
